@@ -179,16 +179,16 @@ class SegwitChecker(SolutionChecker):
                 )
                 raise ScriptError("script sig is not blank on segwit input", err)
 
-            for s in tx_context.witness_solution_stack:
-                if len(s) > self.VM.MAX_BLOB_LENGTH:  # type: ignore[attr-defined]
-                    raise ScriptError(
-                        "pushing too much data onto stack", errno.PUSH_SIZE
-                    )
-
             if witness_version == 0:
                 stack, puzzle_script = self._check_witness_program_v0(
                     tx_context.witness_solution_stack, witness_program
                 )
+                # the size limit applies to the items handed to the script, not to the witness script itself
+                for s in stack:
+                    if len(s) > self.VM.MAX_BLOB_LENGTH:  # type: ignore[attr-defined]
+                        raise ScriptError(
+                            "pushing too much data onto stack", errno.PUSH_SIZE
+                        )
                 sighash_f = self._make_witness_sighash_f(tx_context.tx_in_idx)
                 return puzzle_script, stack, flags | VERIFY_CLEANSTACK, sighash_f
             elif flags & VERIFY_DISCOURAGE_UPGRADABLE_WITNESS_PROGRAM:
